@@ -6,7 +6,7 @@
 From Coq Require Import List ZArith Bool Lia String Ascii QArith Qabs.
 From SDC Require Import Scalars.Lex Scalars.Lex_Proofs Scalars.Timestamp Scalars.Timestamp_Proofs
   Scalars.Decimal Scalars.Decimal_Proofs Scalars.Decimal_Lex_Proofs Scalars.Duration Scalars.Duration_Proofs
-  Scalars.DateTime Scalars.DateTime_Proofs.
+  Scalars.DateTime Scalars.DateTime_Proofs Scalars.Duration_Float_Proofs.
 Import ListNotations.
 Open Scope Z_scope.
 
@@ -130,12 +130,62 @@ Theorem C18_duration_rejects_non_lexical : forall s, parse_duration_us s <> D_RE
 Proof. exact duration_rejects_non_lexical. Qed.
 Print Assumptions C18_duration_rejects_non_lexical.
 
+(* XML -> Python, binary64-faithful model [parse_duration_f] of parse_duration (Scalars/Duration.v): the code computes
+   float('<seconds>.<fraction>'), timedelta rounds that binary64 half-even to whole microseconds, total_seconds() divides by
+   10**6.  A fraction of ANY length is therefore rounded (not truncated, not re-scaled).  For every lexical form
+       PT [<digits>H] [<digits>M] [<digits>[.<digits>]S] [LF]
+   whose exact value N/D microseconds is at most 2^31 s: the form is accepted, the timedelta's microsecond count u is within
+   0.75 us of N/D, and the returned binary64 a/b is within LESS THAN ONE MICROSECOND of the exact value:
+   |a/b - N/(10^6 D)| < 10^-6, written without division. *)
+Theorem C18_duration_parse_within_1us : forall oh om os nl, wf_fld oh -> wf_fld om -> wf_secs os ->
+  is_some oh || is_some om || is_some os = true -> (nl = [] \/ nl = [ascii_of_N 10]) ->
+  let s := "P"%char :: "T"%char :: fld "H"%char oh ++ fld "M"%char om ++ secs os ++ nl in
+  let N := fst (dur_exact_us oh om os) in let D := snd (dur_exact_us oh om os) in
+  N <= 2 ^ 31 * 1000000 * D ->
+  exists u a b, parse_duration_f s = DfOk u (a, b) /\ 0 < b /\ 0 < D /\
+     - (3 * D) <= 4 * (u * D - N) <= 3 * D /\
+     - (b * D) < a * D * 1000000 - N * b < b * D.
+Proof. exact parse_duration_f_1us. Qed.
+Print Assumptions C18_duration_parse_within_1us.
+
+(* up to six fraction digits nothing is rounded: the microsecond count is exactly the decimal value *)
+Theorem C18_duration_parse_exact_up_to_6_digits : forall d f, all_digits d = true -> all_digits f = true -> len f <= 6 ->
+  digits_val d < 2 ^ 31 ->
+  td_float_us (sec_float d f) = digits_val d * 1000000 + digits_val f * 10 ^ (6 - len f).
+Proof. exact td_float_us_exact6. Qed.
+Print Assumptions C18_duration_parse_exact_up_to_6_digits.
+
+(* Python -> XML -> Python on the binary64-faithful parser: what duration_string writes is read back as the same
+   microsecond count (and total_seconds() of it) *)
+Theorem C18_duration_roundtrip_float_model : forall u, 0 <= u < max_us ->
+  parse_duration_f (duration_string_us u) = DfOk u (rnd53 u 1000000).
+Proof. exact duration_f_py_xml_py. Qed.
+Print Assumptions C18_duration_roundtrip_float_model.
+
+Theorem C18_duration_float_model_rejects_non_lexical : forall s, parse_duration_f s <> DfReject -> dur_lexical s.
+Proof. exact parse_duration_f_rejects_non_lexical. Qed.
+Print Assumptions C18_duration_float_model_rejects_non_lexical.
+
 (* ------------------------------------------------------------------ date / time (seconds at microsecond resolution) *)
 (* every valid xsd:dateTime / date / gYearMonth / gYear value (any year, optional time zone, end-of-day form)
    is written to a string that parses back to exactly the same value *)
 Theorem C18_datetime_roundtrip : forall v, dt_valid v = true -> parse_dt (dt_chars v) = DtOk v.
 Proof. exact dt_py_xml_py. Qed.
 Print Assumptions C18_datetime_roundtrip.
+
+(* the second field is kept as a binary64: for a decimal second n/D < 60 with a fraction of any length the stored value
+   (repaired code: the largest binary64 below 60 when float() rounds up to 60.0) is below 60 and within one microsecond *)
+Theorem C18_datetime_second_within_1us : forall n D, 0 <= n -> 0 < D -> n < 60 * D ->
+  let x := clamp_second (rnd53 n D) in
+  0 < snd x /\ fst x < 60 * snd x /\ - (snd x * D) < (fst x * D - n * snd x) * 1000000 < snd x * D.
+Proof. exact clamp_second_within_1us. Qed.
+Print Assumptions C18_datetime_second_within_1us.
+
+(* the code before the repair: 59.999999999999999 is a valid second, float() gives 60.0, XsdDateInformation refuses it *)
+Theorem C18_datetime_second_rounds_to_60_refuted : exists n D, 0 <= n /\ 0 < D /\ n < 60 * D /\
+  60 * snd (rnd53 n D) <= fst (rnd53 n D).
+Proof. exact second_rounds_to_60_ex. Qed.
+Print Assumptions C18_datetime_second_rounds_to_60_refuted.
 
 (* ------------------------------------------------------------------ non-vacuity *)
 Example C18_nonvacuous :
@@ -148,4 +198,15 @@ Example C18_nonvacuous :
   int_to_py " +0012 " = Some 12 /\ int_to_py "1_0" = None /\
   dt_valid (mkdt 2020 (Some 5) None None false (Some (-360))) = true /\
   dt_to_xml (mkdt 2020 (Some 5) None None false (Some (-360))) = "2020-05-06:00"%string.
+Proof. vm_compute. repeat split; congruence. Qed.
+
+(* fractions longer than six digits: rounded half-even on the binary64, never mis-scaled *)
+Example C18_nonvacuous_long_fraction :
+  duration_to_py_us "PT0.0100000S" = 10000 /\ duration_to_py_us "PT1.1234567S" = 1123457 /\
+  duration_to_py_us "PT0.0000004S" = 0 /\ duration_to_py_us "PT0.0000005S" = 0 /\ duration_to_py_us "PT0.0000015S" = 2 /\
+  duration_to_py_us "PT1H1M1.5000000000000000000001S" = 3661500000 /\
+  check_duration_1us (chars "PT2147483647.9999999S") = true /\
+  dt_second_float "2020-05-06T10:11:59.999999999999999" = Some max_second /\
+  dt_second_float_old "2020-05-06T10:11:59.999999999999999" = None /\
+  option_map (fr_eqb (rnd53 1201 100)) (dt_second_float "2020-05-06T10:11:12.0100000") = Some true.
 Proof. vm_compute. repeat split; congruence. Qed.
